@@ -14,7 +14,7 @@
    bookkeeping of the branches taken is reported through BranchesSeen. *)
 EXTENDS Options, TLC, Json
 
-CONSTANTS MaxLen, Fault
+CONSTANTS MaxLen, Fault, BitSets
 VARIABLES bits, syms
 vars == <<bits, syms>>
 
@@ -59,6 +59,11 @@ Opt(b) == [KeepComments |-> Has(b, 1), KeepSpecialComments |-> Has(b, 2), KeepDe
            KeepDocumentTags |-> Has(b, 4), KeepEndTags |-> Has(b, 5), KeepQuotes |-> Has(b, 6),
            KeepWhitespace |-> Has(b, 7), KeepConditionalComments |-> FALSE, Delims |-> <<>>]
 
+BitsAll == 0..127
+X3(a, b, c) == (a + b + c) % 2
+\* strength-3 covering array of the seven options (see OptGen!Cover3)
+BitsCover3 == {a + 2*b + 4*c + 8*d + 16*X3(a, b, c) + 32*X3(a, b, d) + 64*X3(a, c, d) :
+                 a \in {0, 1}, b \in {0, 1}, c \in {0, 1}, d \in {0, 1}}
 AllWs(b) == \A i \in 1..Len(b) : b[i] \in HtmlWs
 CollapseWs(b) ==
   FoldLeft(LAMBDA acc, c : IF c \in HtmlWs THEN (IF acc # <<>> /\ acc[Len(acc)] = 32 THEN acc ELSE Append(acc, 32))
@@ -118,7 +123,7 @@ Step(st, toks, i, o) ==
                   phr == t.n \in NormalT /\ j <= Len(toks) /\ toks[j].k = "E" /\ toks[j].n = t.n
               IN Emit(st, t, IF phr THEN FALSE ELSE om, IF phr THEN "start-phrasing-pair" ELSE "start")
     [] t.k = "A" ->
-         IF (~o.KeepDefaultAttrVals \/ (Fault = "defaults" /\ t.n = "colspan")) /\ DefaultD(t)
+         IF ((~o.KeepDefaultAttrVals /\ ~(Fault = "crosstalk" /\ o.KeepQuotes)) \/ (Fault = "defaults" /\ t.n = "colspan")) /\ DefaultD(t)
          THEN Skip(st, st.omit, "attr-default-drop")
          ELSE LET q == IF t.q = 0 THEN 0
                        ELSE IF NeedsQuote(t.v) \/ (o.KeepQuotes /\ t.q \in {2, 3} /\ Fault # "quotes") THEN 2 ELSE 1
@@ -133,24 +138,26 @@ Step(st, toks, i, o) ==
 Run(toks, o) ==
   FoldLeft(LAMBDA st, i : Step(st, toks, i, o), [out |-> <<>>, omit |-> TRUE, br |-> {}], [i \in 1..Len(toks) |-> i])
 
-Init == bits \in 0..127 /\ syms = <<>>
+Init == bits \in BitSets /\ syms = <<>>
 Next == Len(syms) < MaxLen /\ \E s \in 1..NSym : syms' = Append(syms, s) /\ UNCHANGED bits
 Spec == Init /\ [][Next]_vars
 
 \* D => A: the design's output satisfies every option relation under every option set
+Neutral(o) == [o EXCEPT !.KeepComments = FALSE, !.KeepSpecialComments = FALSE, !.KeepDefaultAttrVals = FALSE,
+                          !.KeepQuotes = FALSE]
 Refines ==
   LET in == Flatten(syms)  o == Opt(bits)  r == Run(in, o)
-      cl == HtmlClauses(in, r.out, o, <<>>, <<>>)
+      cl == HtmlClauses(in, r.out, o, <<>>, <<>>, Run(in, Neutral(o)).out)
   IN \A i \in 1..Len(cl) : cl[i].ok
 \* a failing clause is named in TLC's output
 RefinesNamed ==
   LET in == Flatten(syms)  o == Opt(bits)  r == Run(in, o)
-      cl == HtmlClauses(in, r.out, o, <<>>, <<>>)
+      cl == HtmlClauses(in, r.out, o, <<>>, <<>>, Run(in, Neutral(o)).out)
   IN \A i \in 1..Len(cl) : cl[i].ok \/ PrintT(<<"DESIGN-REJECT", cl[i].name, bits, syms>>) = FALSE
 \* the identity transformation honours every Keep option (relations are reflexive)
 Reflexive ==
   LET in == Flatten(syms)  o == Opt(bits)
-      cl == HtmlClauses(in, in, o, <<>>, <<>>)
+      cl == HtmlClauses(in, in, o, <<>>, <<>>, in)
   IN /\ \A i \in 1..Len(cl) : cl[i].name \in {"Comments", "KeepWhitespace"} \/ cl[i].ok   \* these two demand a change
      /\ SigKept(HtmlSig(in), HtmlSig(in))
 \* branch coverage of the design: which branches of Step the current stream takes; every worker
